@@ -5,9 +5,13 @@ package checks
 import "verif/sim/simrt"
 
 type Prop struct {
-	ID  string
-	Run func(r *simrt.Run)
+	ID      string
+	Run     func(r *simrt.Run)
+	wrapped bool
 }
+
+// wrapC15 is installed by c15_lower_hook.go; the worker calls it before dispatch.
+var wrapC15 func()
 
 var Registry = map[string]*Prop{}
 
